@@ -262,7 +262,7 @@ pub fn check_mode(c: &Case, ctx: &mut Ctx, id: &str, pow2: bool, sign_only: bool
                     let den = m.pmf.add(m.nmf);
                     let cc = mfi_big.max(m.max_flow_in_window) / den.to_f64();
                     if den.hi > 0.0 && !m.tainted && cc <= 1e6 {
-                        let r = m.pmf.mul_f(100.0).div(den);
+                        let r = m.pmf.div(den).mul_f(100.0);
                         let tl = tau(t) * cc.max(1.0) * 100.0;
                         let e = err(out.x(), r);
                         ratio = e / tl;
